@@ -36,6 +36,8 @@ func genPolicy(s *Stream, p *AttemptPlan) {
 	p.ForeignCtx = s.Chance(1, 4)
 	p.WriteYield = s.Chance(1, 6)
 	p.SkipErrorCalls = s.Chance(1, 10) // a caller that goes straight to the next Stream call
+	p.OpenCk = s.Weighted(3, 2, 1)
+	p.SetErrVariant = s.Weighted(2, 1, 1)
 }
 
 func pickStart(s *Stream, h *History, atUnitBoundary bool) Pos {
@@ -238,6 +240,17 @@ func genScenarioC08(t *Tape, thorough bool) *Scenario {
 	a := cleanAttempt(cs, t.S("policy"))
 	a.Pacing = cs.Weighted(3, 1, 2) // mostly far ahead: later packets arrive while the handler holds earlier ones
 	sc.Attempts = []AttemptPlan{a}
+	if cs.Chance(1, 5) {
+		// the handler keeps a transaction it refuses; the stream is torn down around
+		// it and a second call delivers it again
+		exp, _ := h.Model(sc.Start)
+		var f AttemptPlan
+		genPolicy(t.S("policy"), &f)
+		fillFault(cs, h, stopHandlerErr, cs.N(len(exp)+1), &f)
+		f.EnvCancels, f.NoCancelCtx, f.ErrorCalls = false, false, 1
+		f.Pacing = a.Pacing
+		sc.Attempts = []AttemptPlan{f, a}
+	}
 	return sc
 }
 
@@ -281,7 +294,13 @@ var sentinelMessages = []string{"context canceled", "rpc error: code = Canceled 
 
 var errMessages = []string{"Could not find first log file name in binary log index file",
 	"binlog truncated in the middle of event; consider out of disk space on master",
-	"Slave has more GTIDs than the master has", "", "x", "log event entry exceeded max_allowed_packet; Increase max_allowed_packet on master"}
+	"Slave has more GTIDs than the master has", "", "x", "log event entry exceeded max_allowed_packet; Increase max_allowed_packet on master",
+	"A slave with the same server_uuid/server_id as this slave has connected to the master; the first event 'mysql-bin.000001' at 4, the last event read from './mysql-bin.000001' at 120, the last byte read from './mysql-bin.000001' at 120.",
+	"A slave with the same server_uuid as this slave has connected to the master",
+	"Client requested master to start replication from position > file size",
+	"Slave can not handle replication events with the checksum that master is configured to log; the first event 'mysql-bin.000001' at 4",
+	"The slave is connecting using CHANGE MASTER TO MASTER_AUTO_POSITION = 1, but the master has purged binary logs containing GTIDs that the slave requires.",
+	"Misconfigured master - server id was not set", "Binary log is not open", "Query execution was interrupted", "Server shutdown in progress"}
 
 func genErrMsg(s *Stream) string {
 	switch s.Weighted(3, 2, 2) {
@@ -403,6 +422,16 @@ func invalidPayloadRaw(s *Stream, h *History) []byte {
 		p[9], p[10], p[11], p[12] = L[0], L[1], L[2], L[3]
 		return p
 	}
+	if s.Chance(1, 10) {
+		// 13..18 bytes whose length field is right: complete in the fields all binlog
+		// versions share, short of the 19-byte header; typed like the events that may
+		// come before the format description
+		n := 13 + s.N(6)
+		p := s.Bytes(n)
+		p[4] = []byte{4, 15, 4, 15, 2, 16, byte(s.N(256))}[s.N(7)]
+		setLen(p, uint32(n))
+		return p
+	}
 	switch s.Weighted(2, 3, 3, 3, 2, 2, 2, 1) {
 	case 0: // empty event
 		p = []byte{}
@@ -471,7 +500,7 @@ func fillFault(s *Stream, h *History, kind stopKind, at int, p *AttemptPlan) {
 	case stopERR:
 		p.Stream = StreamPlan{Kind: kind, AtPacket: at, ErrCode: uint16(1 + s.N(65535)), ErrMsg: genErrMsg(s), ThenFIN: s.Chance(1, 2)}
 		if s.Chance(1, 3) {
-			p.Stream.ErrCode = []uint16{1236, 1045, 1290, 1792, 2013}[s.N(5)]
+			p.Stream.ErrCode = []uint16{1236, 1236, 1045, 1290, 1792, 2013, 1053, 1317}[s.N(8)]
 		}
 	case stopEOF:
 		p.Stream = StreamPlan{Kind: kind, AtPacket: at, ThenFIN: s.Chance(1, 2)}
